@@ -427,6 +427,25 @@ class FormatMachine(MachineBase):
     def after_legacy_durable(self, path, got):
         pass
 
+    def op_corpus_load(self, op):
+        """F8: a historical fixture shipped with the repository (tests/...) becomes the node's durable state."""
+        import os
+        repo = os.environ.get("VERIF_REPO", "/repo")
+        src = os.path.join(repo, "tests", op["file"])
+        try:
+            with open(src, "rb") as f:
+                data = f.read()
+        except (IOError, OSError):
+            return "noop-missing"
+        if op.get("slot", 0) not in self.slots:
+            self.slots[op.get("slot", 0)] = Slot()
+        path = self.path(op)
+        self.fs.put(path, data)
+        self.durable[path] = {"expected": None, "bytes": data, "clean": True, "legacy": True, "legacy_version": "corpus",
+                              "legacy_prop": "C05", "source": "corpus:" + op["file"], "kw": {}}
+        CTX.probe("c05.corpus_fixture_loaded")
+        return "corpus:%d" % len(data)
+
     def abstract_expected(self, expected):
         return h64(expected)
 
@@ -511,6 +530,85 @@ class FormatMachine(MachineBase):
         if op.get("then_dump", True):
             return "enum:%d/" % done + self.op_dump(op)
         return "enum:%d" % done
+
+    # ---- C07: damage between the write and the next restart ---------------------------------------
+    def op_c07_enum(self, op):
+        from .. import corrupt
+        s = self.slot(op)
+        path = self.path(op)
+        d = self.durable.get(path)
+        if s is None or d is None or not d["clean"] or d["expected"] is None or d.get("legacy") or self.fs.get(path) is None:
+            return "noop"
+        text = self.fs.get(path).decode("utf-8")
+        structured, unstructured = corrupt.corruptions(self.name, text, CTX.order_seed)
+        todo = structured + unstructured
+        only = op.get("only")
+        if only is not None:
+            todo = [c for i, c in enumerate(todo) if i in only]
+            idx = list(only)
+        else:
+            idx = list(range(len(todo)))
+            cap = op.get("cap")
+            if cap and len(todo) > cap:
+                step = len(todo) / float(cap)
+                idx = sorted(set(int(i * step) for i in range(cap)))
+                todo = [todo[i] for i in idx]
+        scratch = "/sim/d/.c07-" + self.FILE
+        done = 0
+        for n, c in zip(idx, todo):
+            via = ["path", "handle", "loads"][n % 3]
+            if via == "loads":
+                try:
+                    c["data"].decode("utf-8")
+                except UnicodeDecodeError:
+                    via = "path"
+            self.fs.put(scratch, c["data"])
+            CTX.fault("F3.structured_damage" if c["must"] != "weak" else "F4.unstructured_damage")
+            CTX.fault("F9.restart_" + via)
+            try:
+                new = self.load_fresh(scratch, via, offset=n)
+                raised = None
+            except Exception as e:
+                if isinstance(e, HarnessError):
+                    raise
+                raised = e
+            done += 1
+            self.count("C07", [self.FORMAT, c["key"], c["must"], raised is not None, via])
+            if c["must"] == "reject" and raised is None:
+                raise Violation("C07", "C07.bad_document_rejected", "bad-document-loaded/%s/%s" % (self.FORMAT, c["key"]),
+                                {"corruption": c["key"], "via": via, "only": [n]})
+            if c["must"] == "accept" and raised is not None:
+                raise Violation("C07", "C07.type_not_checked_below_1_1", "legal-document-rejected/%s/%s/%s" % (self.FORMAT, c["key"], exc_class(raised)),
+                                {"corruption": c["key"], "via": via, "msg": str(raised)[:160], "only": [n]})
+            if c["must"] == "weak" and raised is None:
+                # whatever a successful load returns satisfies what writing enforces
+                tmp = Slot()
+                tmp.obj = new
+                try:
+                    self._last_restart_path = None
+                    tmp.model = self.model_from_observation(self.observe(new))
+                    verdict, why = self.validity(tmp)
+                except Exception:
+                    verdict, why = UNSPEC, "unobservable"
+                if verdict == INVALID:
+                    raise Violation("C07", "C07.loaded_object_satisfies_write_constraints",
+                                    "loaded-object-violates-constraint/%s/%s" % (self.FORMAT, why),
+                                    {"corruption": c["key"], "why": why, "via": via, "only": [n]})
+                if verdict == VALID:
+                    try:
+                        new.dumps()
+                    except Exception as e:
+                        if isinstance(e, HarnessError):
+                            raise
+                        raise Violation("C07", "C07.loaded_object_satisfies_write_constraints",
+                                        "loaded-object-cannot-be-dumped/%s/%s" % (self.FORMAT, exc_class(e)),
+                                        {"corruption": c["key"], "via": via, "msg": str(e)[:160], "only": [n]})
+                    CTX.probe("c07.damaged_document_loaded_and_valid")
+        self.fs.remove(scratch)
+        return "c07:%d" % done
+
+    def model_from_observation(self, obs):
+        return copy.deepcopy(obs)
 
     # ---- C08: equal content => equal bytes ---------------------------------------------
     def op_cmp_slots(self, op):
